@@ -48,8 +48,18 @@ pub fn le_name(le: LineEnding) -> &'static str {
     }
 }
 
+/// The documented defaults (LF, tab width 4) are *not* set explicitly, so that the library's own
+/// defaults (`DEFAULT_LINE_ENDING`, `DEFAULT_TAB_WIDTH`) are what such cases run with; the model
+/// holds them as literals.
 pub fn metrics(le: LineEnding, tab: u8) -> ColumnMetrics {
-    ColumnMetrics::new().with_line_ending(le).with_tab_width(tab)
+    let mut m = ColumnMetrics::new();
+    if le != LineEnding::Lf {
+        m = m.with_line_ending(le);
+    }
+    if tab != 4 {
+        m = m.with_tab_width(tab);
+    }
+    m
 }
 
 /// All strings over `alphabet` of length exactly `n`.
